@@ -74,6 +74,7 @@ def gen(rng, tier):
         if rng.random() < 0.5:
             per_pop = {q: rng.randint(nsamp, nsamp + 2) for q in ["CEU", "YRI", "AMR", "EAS"]}
         case = dict(violation=v, nsamp=str(nsamp), pops=pops, lines=lines, chroms=chroms, sep=sep, popsize=rng.choice([1, 5, 10, 50]), only_bp=rng.random() < 0.4, no_repl=rng.random() < 0.5, per_pop=per_pop, region=None, seed=rng.randrange(2**31), map_missing=None, bad_map_line=None, bad_sample=None, drop_pop=None, mapdir_ok=True, line_idx=rng.randrange(len(lines)))
+        case["extra_maps"] = rng.sample(["10", "11", "12", "17", "20", "21", "3", "72"], rng.randint(0, 4)) if rng.random() < 0.6 else []
         if rng.random() < 0.3:
             st = rng.choice([100, 150, 250])
             case["region"] = {"chr": chroms[0], "start": st, "end": rng.choice([e for e in (150, 250, 450, 600, 5000) if e > st])}
@@ -160,6 +161,13 @@ def materialise(case):
             f.write(case["sep"].join(l) + "\n")
     md = d / "maps"
     md.mkdir()
+    # maps of chromosomes that were not requested may lie in the same directory (a user keeps all of them there),
+    # among them two-digit ones that begin with a requested single digit
+    for c in case.get("extra_maps", []):
+        if c not in case["chroms"]:
+            with open(md / f"genetic_map_chr{c}.map", "w") as f:
+                for i, (bp, cm) in enumerate(MAPS["1"]):
+                    f.write(f"{c} rs{bp} {cm} {bp}\n")
     for c in set(case["chroms"]) & set(MAPS):
         if c == case["map_missing"]:
             continue
